@@ -137,7 +137,7 @@ def replay_lit(rec):
     text = rec["text"]
     for j, ln in enumerate(text):
         ln["_j"] = j
-    for layout in (0, 3, 1):
+    for layout in (0, 3, 4):
         s = D.render_lines(text, rnd, layout, False, lits=rec["lits"])
         r = D.parse_dip(s)
         if r[0] != "ok":
@@ -176,7 +176,7 @@ def run(replay=None):
             V.notes.append("TLC: Refines counterexample (hierarchy machine vs ideal): " + r.cex[:400])
         recs += r.records
     for r in recs:
-        r["_layouts"] = [(0, False), (3, False), (2, False)]
+        r["_layouts"] = [(0, False), (3, False), (4, False)]
     T.judge(V, recs, C.seed())
     # code -> spec: every parse the repository's own DIP tests perform, validated against machine and ideal
     from . import dip_tracer as DT
